@@ -33,6 +33,10 @@ pub enum Ev {
     ServerReturn { ch: u8, len: u16, code: u16 },
     Blocked { reason: String },
     Unblocked,
+    /// the server sends a burst of 1030-3000 events of one kind (0 = returns with tiny bodies,
+    /// 1 = acks with ascending tags, 2 = blocked notices) which nobody reads until the history is
+    /// over: listener queues are unbounded, a listener that lags behind loses nothing
+    Burst { ch: u8, kind: u8, n: u16 },
 }
 
 #[derive(Clone, Debug, Serialize, Deserialize, PartialEq)]
@@ -99,6 +103,7 @@ struct Report {
     close: Result<(), String>,
     replaced: bool,
     interleaved: bool,
+    bursts: usize,
 }
 
 fn drain_confirm(rx: &Receiver<Confirm>) -> (Vec<Note>, bool) {
@@ -174,6 +179,7 @@ pub fn exec(c: &Case) -> Outcome {
         let mut replaced = false;
         let mut last_event_ch: Option<usize> = None;
         let mut interleaved = false;
+        let mut bursts = 0usize;
         let mut gen = 0;
         // a registration without a barrier is only ordered before events it causally precedes
         // (a publish on the same channel and what that publish causes); before any other server
@@ -182,7 +188,7 @@ pub fn exec(c: &Case) -> Outcome {
         for ev in &case.events {
             gen += 1;
             let server_event_on = match ev {
-                Ev::ServerConfirm { ch, .. } | Ev::ServerReturn { ch, .. } => Some(*ch as usize % nch),
+                Ev::ServerConfirm { ch, .. } | Ev::ServerReturn { ch, .. } | Ev::Burst { ch, .. } => Some(*ch as usize % nch),
                 _ => None,
             };
             if let Some(i) = server_event_on {
@@ -364,6 +370,63 @@ pub fn exec(c: &Case) -> Outcome {
                         errors.push(format!("barrier after return: {:?}", e));
                     }
                 }
+                Ev::Burst { ch, kind, n } => {
+                    let i = *ch as usize % nch;
+                    let id = ids[i];
+                    let n = 1030 + (*n as usize % 1971);
+                    let kind = *kind % 3;
+                    let salt = case.salt;
+                    bh2.cmd(move |_b, io| {
+                        for k in 0..n {
+                            match kind {
+                                0 => {
+                                    for f in content_frames(
+                                        id,
+                                        AMQPClass::Basic(Basic::Return(basic::Return {
+                                            reply_code: 312,
+                                            reply_text: "burst".into(),
+                                            exchange: "x".into(),
+                                            routing_key: "k".into(),
+                                        })),
+                                        &amiquip::AmqpProperties::default(),
+                                        &body_bytes(k % 4, salt.wrapping_add(k as u64)),
+                                        &[500],
+                                    ) {
+                                        io.send(f);
+                                    }
+                                }
+                                1 => io.send_method(id, AMQPClass::Basic(Basic::Ack(basic::Ack { delivery_tag: k as u64 + 1, multiple: false }))),
+                                _ => io.send_method(0, AMQPClass::Connection(Conn::Blocked(connection::Blocked { reason: format!("burst-{}", k) }))),
+                            }
+                        }
+                    });
+                    for k in 0..n {
+                        match kind {
+                            0 => {
+                                if let Some(l) = returns[i].as_mut() {
+                                    l.expected.push(Note::Return(312, body_bytes(k % 4, case.salt.wrapping_add(k as u64))));
+                                }
+                            }
+                            1 => {
+                                if let Some(l) = confirm[i].as_mut() {
+                                    l.expected.push(Note::Confirm(false, k as u64 + 1, false));
+                                }
+                            }
+                            _ => {
+                                if let Some(l) = blocked.as_mut() {
+                                    l.expected.push(Note::Blocked(Some(format!("burst-{}", k))));
+                                }
+                            }
+                        }
+                    }
+                    bursts += 1;
+                    last_event_ch = Some(i);
+                    // one barrier behind the whole burst (channel for returns / acks; the blocked
+                    // listener's barrier is an open_channel, as for single notices)
+                    if let Err(e) = chans[i].qos(0, 0, false) {
+                        errors.push(format!("barrier after burst: {:?}", e));
+                    }
+                }
                 Ev::Blocked { reason } => {
                     let r = reason.clone();
                     bh2.cmd(move |_b, io| io.send_method(0, AMQPClass::Connection(Conn::Blocked(connection::Blocked { reason: r }))));
@@ -391,11 +454,13 @@ pub fn exec(c: &Case) -> Outcome {
                 errors.push(format!("channel {} unusable at the end: {:?}", ch.channel_id(), e));
             }
         }
-        match conn.open_channel(None) {
-            Ok(ch) => std::mem::forget(ch),
-            Err(e) => errors.push(format!("connection unusable at the end: {:?}", e)),
+        // (kept open across the close, dropped afterwards)
+        let last = conn.open_channel(None);
+        if let Err(e) = &last {
+            errors.push(format!("connection unusable at the end: {:?}", e));
         }
         let close = conn.close().map_err(|e| format!("{:?}", e));
+        drop(last);
         let mut listeners = Vec::new();
         for (d, l) in done_confirm {
             let (got, disc) = drain_confirm(&l.rx);
@@ -432,6 +497,7 @@ pub fn exec(c: &Case) -> Outcome {
             close,
             replaced,
             interleaved,
+            bursts,
         })
     });
     let io_thread = wire.io_thread();
@@ -482,6 +548,9 @@ pub fn exec(c: &Case) -> Outcome {
     if rep.replaced {
         o.labels.push("listener-replaced-or-dropped".into());
     }
+    if rep.bursts > 0 {
+        o.labels.push("burst-of-more-than-1024-unread-events".into());
+    }
     if rep.interleaved {
         o.labels.push("channels-interleaved".into());
     }
@@ -511,6 +580,7 @@ fn strat(_t: Tier) -> BoxedStrategy<Case> {
         4 => (ch(), any::<u16>(), any::<u16>()).prop_map(|(ch, len, code)| Ev::ServerReturn { ch, len, code }),
         2 => crate::gen::short_string().prop_map(|reason| Ev::Blocked { reason }),
         1 => Just(Ev::Unblocked),
+        1 => (ch(), 0u8..3, any::<u16>()).prop_map(|(ch, kind, n)| Ev::Burst { ch, kind, n }),
     ];
     (1u8..=3, vec(ev, 1..40), any::<u64>())
         .prop_map(|(channels, events, salt)| Case { channels, events, salt })
@@ -520,7 +590,7 @@ fn strat(_t: Tier) -> BoxedStrategy<Case> {
 pub fn parts() -> Vec<Box<dyn PartDyn>> {
     vec![Box::new(Part::<Case> {
         name: "e2e",
-        rule: "histories of up to 40 events on 1-3 channels: register / replace / drop a confirm listener, a return listener, the connection's blocked listener; publishes (confirmed ack or nack by the broker as soon as it has seen them, with or without a barrier between registration and publish); unsolicited acks/nacks with arbitrary tag and multiple flag; returns with bodies up to 3000 bytes; blocked(reason)/unblocked. FIFO barriers (a synchronous call on the same channel / an open_channel for the blocked listener) make listener lifetimes exact; oracle: every listener instance receives exactly the events sent for its channel during its lifetime, unchanged and in order; a replaced listener's receiver is disconnected; events with no or a dropped listener are discarded and every channel and the connection still work afterwards; non-trivial = a listener was replaced or dropped between events and events of >= 2 channels interleave; distinct by case hash",
+        rule: "histories of up to 40 events on 1-3 channels: register / replace / drop a confirm listener, a return listener, the connection's blocked listener; publishes (confirmed ack or nack by the broker as soon as it has seen them, with or without a barrier between registration and publish); unsolicited acks/nacks with arbitrary tag and multiple flag; returns with bodies up to 3000 bytes; blocked(reason)/unblocked; bursts of 1030-3000 returns, acks or blocked notices that stay unread until the end. FIFO barriers (a synchronous call on the same channel / an open_channel for the blocked listener) make listener lifetimes exact; oracle: every listener instance receives exactly the events sent for its channel during its lifetime, unchanged and in order; a replaced listener's receiver is disconnected; events with no or a dropped listener are discarded and every channel and the connection still work afterwards; non-trivial = a listener was replaced or dropped between events and events of >= 2 channels interleave; distinct by case hash",
         cases: |t| t.pick(4000, 60_000),
         threads: 16,
         strategy: strat,
